@@ -235,6 +235,14 @@ func (c *Ctx) serHooks(mode serMode) Hooks {
 		}
 		return "?" + v.String()
 	}
+	h.StructLit = func(in *Interp, st *State, e *ast.CompositeLit, names []string, vals []Value) {
+		tn := "<" + typeShort(c.typeOf(e)) + ">"
+		for i, n := range names {
+			if n != "" && i < len(vals) {
+				serPayOf(st).fields[tn+"."+n] = vals[i]
+			}
+		}
+	}
 	h.Inline = func(fn *types.Func) bool {
 		return fn.Pkg() != nil && fn.Pkg().Path() == bclPath && !serPrimitives[funcName(fn)]
 	}
@@ -266,28 +274,7 @@ func (c *Ctx) serHooks(mode serMode) Hooks {
 			}
 		case *ast.CompositeLit:
 			// a struct literal sets its fields (dumpWriter{out: …, scratch: make([]byte, n)})
-			stt, ok := derefType(c.typeOf(e)).Underlying().(*types.Struct)
-			if !ok || len(e.Elts) == 0 {
-				return Value{}, false
-			}
-			tn := "<" + typeShort(c.typeOf(e)) + ">"
-			for i, el := range e.Elts {
-				name := ""
-				val := el
-				if kv, ok := el.(*ast.KeyValueExpr); ok {
-					if id, ok := kv.Key.(*ast.Ident); ok {
-						name = id.Name
-					}
-					val = kv.Value
-				} else if i < stt.NumFields() {
-					name = stt.Field(i).Name()
-				}
-				vs := in.eval(st, val)
-				if len(vs) == 1 && name != "" {
-					serPayOf(st).fields[tn+"."+name] = vs[0].v
-				}
-			}
-			return Value{K: vUnknown, T: c.typeOf(e)}, true
+			return Value{}, false
 		case *ast.SliceExpr:
 			if !load && e.Low == nil && e.High == nil {
 				// b[:] of a fixed array: a buffer of that many bytes
